@@ -104,30 +104,102 @@ theorem surrogates :
     unquote [0x22, 0x5C, 0x75, 0x64, 0x38, 0x33, 0x64, 0x5C, 0x75, 0x30, 0x30, 0x34, 0x31, 0x22] = some [0xEF, 0xBF, 0xBD, 0x41] := by
   decide
 
-/-! ## The scanner automaton is the RFC 8259 grammar -/
+/-! ## The scanner automaton is the RFC 8259 grammar, nested at most `maxNestingDepth` deep -/
 
 /-- `Grammar.json b`: `b` is a JSON text (`ws value ws`) of the grammar of `Tengo.Proofs.JsonGrammar`
 (RFC 8259 §2–§7 as inductive predicates; bytes ≥ 0x20 other than `"` and `\` are string characters,
 as for encoding/json). The denoted value plays no role in derivability. -/
 def Grammar.json (b : Bytes) : Prop := ∃ v, Json (fun _ => 0) b v
 
-/-- **Scanner = grammar.** `checkValid` accepts exactly the JSON texts. -/
-theorem scanner_eq_grammar (b : Bytes) : (∃ s, checkValid b = .ok s) ↔ Grammar.json b := by
+/-- `Grammar.jsonDepth n b`: `b` is a JSON text of the same grammar whose arrays and objects are nested
+at most `n` deep (`ValD`: a scalar has depth 0, `[]` and `{}` depth 1, a non-empty array or object one
+more than its deepest element or member value). -/
+def Grammar.jsonDepth (n : Nat) (b : Bytes) : Prop := ∃ v, JsonD (fun _ => 0) n b v
+
+/-- The depth-bounded grammar is the RFC grammar plus the bound: every text of the RFC grammar has
+some finite nesting depth, a bounded text is a text, and the bound is an upper bound. -/
+theorem Grammar.json_iff_jsonDepth (b : Bytes) : Grammar.json b ↔ ∃ n, Grammar.jsonDepth n b :=
+  ⟨fun ⟨v, h⟩ => let ⟨n, hn⟩ := h.toD; ⟨n, v, hn⟩, fun ⟨_, v, h⟩ => ⟨v, h.toJson⟩⟩
+
+theorem Grammar.jsonDepth_mono {n k : Nat} {b : Bytes} (h : Grammar.jsonDepth n b) (hk : n ≤ k) : Grammar.jsonDepth k b :=
+  let ⟨v, hv⟩ := h; ⟨v, hv.mono hk⟩
+
+/-- The limit of scanner.go (`const maxNestingDepth = 10000`, the one encoding/json has). -/
+theorem max_depth_value : maxNestingDepth = 10000 := rfl
+
+/-- **Scanner = grammar with the nesting limit.** `checkValid` accepts exactly the JSON texts whose
+arrays and objects are nested at most `maxNestingDepth` (10000) deep — all byte strings, both
+directions; in particular a text of the RFC grammar nested deeper is rejected (O34). -/
+theorem scanner_eq_grammar (b : Bytes) : (∃ s, checkValid b = .ok s) ↔ Grammar.jsonDepth maxNestingDepth b := by
   rw [checkValid_iff_accB]
   exact ⟨accB_json _ b, fun ⟨_, h⟩ => json_accB h⟩
 
+/-- What the scanner accepts is a text of the RFC grammar. -/
+theorem scanner_sound (b : Bytes) (h : ∃ s, checkValid b = .ok s) : Grammar.json b :=
+  (Grammar.json_iff_jsonDepth b).mpr ⟨_, (scanner_eq_grammar b).mp h⟩
+
 /-- Non-vacuity: ` [1,{"a":-2.5e3}]` is in the grammar (through the theorem: the automaton accepts it). -/
-example : Grammar.json [0x20, 0x5B, 0x31, 0x2C, 0x7B, 0x22, 0x61, 0x22, 0x3A, 0x2D, 0x32, 0x2E, 0x35, 0x65, 0x33, 0x7D, 0x5D] :=
+example : Grammar.jsonDepth maxNestingDepth [0x20, 0x5B, 0x31, 0x2C, 0x7B, 0x22, 0x61, 0x22, 0x3A, 0x2D, 0x32, 0x2E, 0x35, 0x65, 0x33, 0x7D, 0x5D] :=
   (scanner_eq_grammar _).mp ((checkValid_iff_accB _).mpr (by decide))
 
-example : ¬ Grammar.json [0x5B, 0x31, 0x2C, 0x5D] := fun h => by   -- `[1,]`
+example : ¬ Grammar.jsonDepth maxNestingDepth [0x5B, 0x31, 0x2C, 0x5D] := fun h => by   -- `[1,]`
   have := (checkValid_iff_accB _).mp ((scanner_eq_grammar _).mpr h)
   revert this; decide
 
+/-! ### The limit is exact: `[`×n `]`×n -/
+
+/-- `[`×(n+1) `]`×(n+1): arrays nested `n + 1` deep. -/
+def nestArr : Nat → Bytes
+  | 0 => [0x5B, 0x5D]
+  | n + 1 => 0x5B :: nestArr n ++ [0x5D]
+
+theorem nestArr_eq (n : Nat) : nestArr n = List.replicate (n + 1) 0x5B ++ List.replicate (n + 1) 0x5D := by
+  induction n with
+  | zero => rfl
+  | succ n ih =>
+    rw [nestArr, ih, List.replicate_succ (n := n + 1), List.replicate_succ' (n := n + 1)]
+    simp
+
+theorem nestArr_valD (pf : Bytes → UInt64) (n : Nat) : ∃ v, ValD pf (n + 1) (nestArr n) v := by
+  induction n with
+  | zero => exact ⟨_, ValD.arrEmpty (w := []) ws_nil⟩
+  | succ n ih =>
+    obtain ⟨v, hv⟩ := ih
+    have := ValD.arr (ElemsD.one (w1 := []) (w2 := []) ws_nil hv ws_nil)
+    exact ⟨_, by simpa [nestArr] using this⟩
+
+/-- **The limit is exact (O34).** `[`×n `]`×n is accepted iff `n ≤ maxNestingDepth`: 10000 levels pass,
+10001 do not. -/
+theorem nested_arrays_valid_iff (n : Nat) :
+    (∃ s, checkValid (List.replicate (n + 1) 0x5B ++ List.replicate (n + 1) 0x5D) = .ok s) ↔ n + 1 ≤ maxNestingDepth := by
+  constructor
+  · intro h
+    apply Decidable.byContradiction
+    intro hn
+    have := (checkValid_iff_accB _).mp h
+    rw [accB_deep (n + 1) .beginValue [] _ (.inl rfl) (by simp) (by simp; omega)] at this
+    exact Bool.noConfusion this
+  · intro hn
+    rw [← nestArr_eq, scanner_eq_grammar]
+    obtain ⟨v, hv⟩ := nestArr_valD (fun _ => 0) n
+    exact ⟨v, [], nestArr n, [], by simp, ws_nil, hv.mono hn, ws_nil⟩
+
+/-- More than `maxNestingDepth` opening brackets in a row are rejected whatever follows. -/
+theorem deep_rejected (n : Nat) (h : maxNestingDepth < n) (r : Bytes) :
+    ∃ e, checkValid (List.replicate n 0x5B ++ r) = .error e := by
+  cases hc : checkValid (List.replicate n 0x5B ++ r) with
+  | error e => exact ⟨e, rfl⟩
+  | ok s =>
+    have := (checkValid_iff_accB _).mp ⟨s, hc⟩
+    rw [accB_deep n .beginValue [] r (.inl rfl) (by simp) (by simp; omega)] at this
+    exact Bool.noConfusion this
+
 /-! ## `Decode` is total and computes the denotation -/
 
-/-- `Decode` returns the value a JSON text denotes, and only on JSON texts. -/
-theorem decode_ok_iff (pf : Bytes → UInt64) (b : Bytes) (v : J) : decode pf b = .ok v ↔ Json pf b v := by
+/-- `Decode` returns the value a JSON text denotes, and only on JSON texts nested at most
+`maxNestingDepth` deep. -/
+theorem decode_ok_iff (pf : Bytes → UInt64) (b : Bytes) (v : J) :
+    decode pf b = .ok v ↔ JsonD pf maxNestingDepth b v := by
   constructor
   · intro h
     cases hc : checkValid b with
@@ -141,8 +213,8 @@ theorem decode_ok_iff (pf : Bytes → UInt64) (b : Bytes) (v : J) : decode pf b 
   · exact decode_json pf
 
 /-- **No panic, no fuel exhaustion.** On every byte string `Decode` returns a value or the scanner's
-syntax error: the phase panics of decode.go are unreachable after `checkValid`, and the fuel
-`2·|data|+2` the model gives the recursion always suffices. -/
+syntax error (which includes `exceeded max depth`): the phase panics of decode.go are unreachable after
+`checkValid`, and the fuel `2·|data|+2` the model gives the recursion always suffices. -/
 theorem decode_no_panic (pf : Bytes → UInt64) (b : Bytes) :
     (∃ v, decode pf b = .ok v) ∨ (∃ e, checkValid b = .error e ∧ decode pf b = .syntaxErr e) := by
   cases hc : checkValid b with
@@ -151,8 +223,10 @@ theorem decode_no_panic (pf : Bytes → UInt64) (b : Bytes) :
     obtain ⟨v, hv⟩ := accB_json pf b ((checkValid_iff_accB b).mp ⟨sc, hc⟩)
     exact .inl ⟨v, decode_json pf hv⟩
 
-/-- `Decode` fails exactly when the scanner rejects, i.e. exactly on non-JSON. -/
-theorem decode_err_iff (pf : Bytes → UInt64) (b : Bytes) : (∃ e, decode pf b = .syntaxErr e) ↔ ¬ Grammar.json b := by
+/-- `Decode` fails exactly when the scanner rejects, i.e. exactly on byte strings that are not JSON
+texts nested at most `maxNestingDepth` deep. -/
+theorem decode_err_iff (pf : Bytes → UInt64) (b : Bytes) :
+    (∃ e, decode pf b = .syntaxErr e) ↔ ¬ Grammar.jsonDepth maxNestingDepth b := by
   rw [← scanner_eq_grammar]
   constructor
   · rintro ⟨e, he⟩ ⟨s, hs⟩
@@ -172,7 +246,7 @@ theorem number_typing (pf : Bytes → UInt64) (t : Bytes) (h : NumTok t) :
       match parseInt t with
       | some n => .int n
       | none => .float (pf t)) := by
-  have := decode_json pf (b := t) ⟨[], t, [], by simp, ws_nil, Val.num h, ws_nil⟩
+  have := decode_json pf (b := t) ⟨[], t, [], by simp, ws_nil, ValD.num h, ws_nil⟩
   rw [this]; rfl
 
 /-- `ParseInt` on the text `AppendInt` writes, and on the first integers outside int64. -/
@@ -199,10 +273,16 @@ example :
 
 /-! ## Encode: valid JSON, and the round trip
 
-The three theorems below are proved for the float-free fragment (`Rep` excludes `.float`): the text of a
+The theorems below are proved for the float-free fragment (`Rep` excludes `.float`): the text of a
 float is external to the model. The full statements, with the law the float oracles would have to satisfy
 spelled out, are `encode_valid_full` / `roundtrip_full` (not proved; the float clauses are searched on the
-real code by harness/cmd/c18). -/
+real code by harness/cmd/c18).
+
+Nesting: the text `Encode` writes nests exactly as deep as the value (`depth`, `encode_valid_partial`).
+`Encode` itself has no limit, the scanner has: the clauses that run `checkValid` / `Decode` on the
+encoding carry the hypothesis `depth v ≤ maxNestingDepth`, and it is needed
+(`roundtrip_needs_depth`: the array nested 10001 deep encodes, and `Decode` rejects its encoding — as
+encoding/json does). -/
 
 /-- The law the external float conversions must satisfy for the float clauses: what `Encode` writes for a
 finite float is a number token that reads back as a number `Equals` to it. -/
@@ -228,36 +308,68 @@ end
 
 /-- Full strength of `encode_valid` (not proved for values containing floats). -/
 def encode_valid_full : Prop :=
-  ∀ ff pf i2f v, FloatOracleOK ff pf i2f → RepF v → ∃ t, encode ff v = some t ∧ Grammar.json t
+  ∀ ff pf i2f v, FloatOracleOK ff pf i2f → RepF v → ∃ t, encode ff v = some t ∧ Grammar.jsonDepth (depth v) t
 
 /-- Full strength of the round trip (not proved for values containing floats). -/
 def roundtrip_full : Prop :=
-  ∀ ff pf i2f v, FloatOracleOK ff pf i2f → RepF v → DK v →
+  ∀ ff pf i2f v, FloatOracleOK ff pf i2f → RepF v → depth v ≤ maxNestingDepth → DK v →
     ∃ t v', encode ff v = some t ∧ decode pf t = .ok v' ∧ equals i2f v' v = true
 
 /-- **The encoding is valid.** For every float-free representable value (ints within int64, strings
-and keys valid UTF-8, any nesting) `Encode` succeeds and `checkValid` accepts the text. -/
+and keys valid UTF-8, any nesting) `Encode` succeeds and the text is a JSON text of the RFC grammar nested
+exactly as deep as the value; `checkValid` accepts it when that depth is within `maxNestingDepth`. -/
 theorem encode_valid_partial (ff : UInt64 → Bytes × Bytes) (v : J) (h : Rep v) :
-    ∃ t, encode ff v = some t ∧ (∃ s, checkValid t = .ok s) ∧ Grammar.json t := by
-  obtain ⟨t, ht, hv⟩ := enc_val (fun _ => 0) ff v h
-  have hj : Json (fun _ => 0) t (canon v) := ⟨[], t, [], by simp, ws_nil, hv, ws_nil⟩
-  exact ⟨t, ht, (scanner_eq_grammar t).mpr ⟨_, hj⟩, ⟨_, hj⟩⟩
+    ∃ t, encode ff v = some t ∧ Grammar.json t ∧ Grammar.jsonDepth (depth v) t ∧
+      (depth v ≤ maxNestingDepth → ∃ s, checkValid t = .ok s) := by
+  obtain ⟨t, ht, hv⟩ := enc_valD (fun _ => 0) ff v h
+  have hj : JsonD (fun _ => 0) (depth v) t (canon v) := ⟨[], t, [], by simp, ws_nil, hv, ws_nil⟩
+  exact ⟨t, ht, ⟨_, hj.toJson⟩, ⟨_, hj⟩, fun hd => (scanner_eq_grammar t).mpr ⟨_, hj.mono hd⟩⟩
 
-/-- **Round trip.** Decoding the encoding of a float-free representable value gives its canonical
-form: the same value with every map holding its members sorted by key (what a Go map is). -/
-theorem decode_encode_partial (pf : Bytes → UInt64) (ff : UInt64 → Bytes × Bytes) (v : J) (h : Rep v) :
-    ∃ t, encode ff v = some t ∧ decode pf t = .ok (canon v) := by
-  obtain ⟨t, ht, hv⟩ := enc_val pf ff v h
-  exact ⟨t, ht, decode_json pf ⟨[], t, [], by simp, ws_nil, hv, ws_nil⟩⟩
+/-- **Round trip.** Decoding the encoding of a float-free representable value nested at most
+`maxNestingDepth` deep gives its canonical form: the same value with every map holding its members
+sorted by key (what a Go map is). -/
+theorem decode_encode_partial (pf : Bytes → UInt64) (ff : UInt64 → Bytes × Bytes) (v : J) (h : Rep v)
+    (hd : depth v ≤ maxNestingDepth) : ∃ t, encode ff v = some t ∧ decode pf t = .ok (canon v) := by
+  obtain ⟨t, ht, hv⟩ := enc_valD pf ff v h
+  exact ⟨t, ht, decode_json pf ⟨[], t, [], by simp, ws_nil, hv.mono hd, ws_nil⟩⟩
 
-/-- **Round trip with tengo equality.** For a float-free representable value whose maps have distinct
-keys (every Go map has), decoding the encoding succeeds and the result `Equals` the value. Holds for
-every member order the encoder may have used (`v` lists the members in that order). -/
+/-- **Round trip with tengo equality.** For a float-free representable value nested at most
+`maxNestingDepth` deep whose maps have distinct keys (every Go map has), decoding the encoding succeeds
+and the result `Equals` the value. Holds for every member order the encoder may have used (`v` lists the
+members in that order). -/
 theorem decode_encode_equals_partial (pf : Bytes → UInt64) (ff : UInt64 → Bytes × Bytes) (i2f : Int → UInt64) (v : J)
-    (h : Rep v) (hd : DK v) :
+    (h : Rep v) (hd : depth v ≤ maxNestingDepth) (hk : DK v) :
     ∃ t v', encode ff v = some t ∧ decode pf t = .ok v' ∧ equals i2f v' v = true := by
-  obtain ⟨t, ht, hdec⟩ := decode_encode_partial pf ff v h
-  exact ⟨t, canon v, ht, hdec, equals_canon i2f v h hd⟩
+  obtain ⟨t, ht, hdec⟩ := decode_encode_partial pf ff v h hd
+  exact ⟨t, canon v, ht, hdec, equals_canon i2f v h hk⟩
+
+/-- Arrays nested `n + 1` deep, as a value. -/
+def nestVal : Nat → J
+  | 0 => .arr .nil
+  | n + 1 => .arr (.cons (nestVal n) .nil)
+
+theorem nestVal_facts (ff : UInt64 → Bytes × Bytes) (n : Nat) :
+    encode ff (nestVal n) = some (nestArr n) ∧ Rep (nestVal n) ∧ DK (nestVal n) ∧ depth (nestVal n) = n + 1 := by
+  induction n with
+  | zero => simp [nestVal, nestArr, encode, encodeList, Rep, RepList, DK, DKList, depth, depthList]
+  | succ n ih =>
+    obtain ⟨h1, h2, h3, h4⟩ := ih
+    simp [nestVal, nestArr, encode, encodeList, Rep, RepList, DK, DKList, depth, depthList, h1, h2, h3, h4]
+
+/-- **The depth hypothesis of the round trip is needed.** The array nested `maxNestingDepth + 1` deep is
+representable and `Encode` writes it, but `Decode` rejects the text (so does encoding/json, whose limit
+this is). -/
+theorem roundtrip_needs_depth (pf : Bytes → UInt64) (ff : UInt64 → Bytes × Bytes) :
+    ∃ v t e, Rep v ∧ DK v ∧ depth v = maxNestingDepth + 1 ∧ encode ff v = some t ∧ decode pf t = .syntaxErr e := by
+  obtain ⟨h1, h2, h3, h4⟩ := nestVal_facts ff maxNestingDepth
+  obtain ⟨e, he⟩ := deep_rejected (maxNestingDepth + 1) (by omega) (List.replicate (maxNestingDepth + 1) 0x5D)
+  refine ⟨nestVal maxNestingDepth, nestArr maxNestingDepth, e, h2, h3, h4, h1, ?_⟩
+  rw [nestArr_eq]
+  simp [decode, he]
+
+/-- Non-vacuity of the depth hypothesis: the value below has depth 2. -/
+example : depth (.arr (.cons (.obj (.cons [0x62] (.int (-5)) (.cons [0x61] (.str [0xC3, 0xA9, 0x0A]) .nil)))
+    (.cons .null (.cons (.bool true) .nil)))) ≤ maxNestingDepth := by decide
 
 /-- Non-vacuity: `[{"b":-5,"a":"é\n"},null,true]` is representable with distinct keys; its encoding and
 the decoded (key-sorted) value, by evaluation. -/
